@@ -177,6 +177,15 @@ def arity_check(ctx):
             rows.append(dict(name=o.name, ok=False, undecided=True, backend=o.backend, detail=f"undecided: {getattr(o, 'why', '')}"))
     if not rows:
         rows.append(dict(name=KEY + '#zero-obligations', ok=False, undecided=True, backend='z3', detail='no obligation generated'))
+    # the entry point: get_fn_arity(f) IS _e(f) - no path returns anything else (a special case that looks only at some of the nodes
+    # gives another number, or fails on nodes it cannot hash)
+    outer = src.find('klongpy/types.py::get_fn_arity')
+    rets = [n for n in ast.walk(outer) if isinstance(n, ast.Return)] if outer is not None else []
+    inner = src.find(KEY)
+    own = [n for n in rets if not any(n is m for m in ast.walk(inner))] if inner is not None else rets
+    bad = [ast.unparse(n) for n in own if ast.unparse(n) != 'return _e(f)']
+    rows.append(dict(name='klongpy/types.py::get_fn_arity#every-path-returns-_e(f)', ok=bool(own) and not bad, backend='ast-structural',
+                     detail=('the only result is _e(f)' if own and not bad else f"a path returns {bad[:1] or 'nothing'} instead of _e(f)")))
     ctx['eng'].verified[KEY] = dict(sha=src.sha(src.find(KEY)), paths=eng.paths.get(KEY), backend='z3 (own registry)')
     return _battery(rows)
 
